@@ -1425,8 +1425,8 @@ func (c *Ctx) dbufIsViewOfInput() bool {
 			}
 			n++
 			v := st.Val
-			ok = false
-			for i := 0; i < 4; i++ {
+			ok = ir.SeeThrough(v) == src
+			for i := 0; i < 4 && !ok; i++ {
 				sl, isSl := v.(*ssa.Slice)
 				if !isSl {
 					break
